@@ -39,7 +39,7 @@ type C09Sc struct {
 
 var c09Outcomes = []ItemSc{
 	{Tok: "ok"}, {Tok: "et"}, {Tok: "ep"}, {Tok: "pe"}, {Tok: "ps"}, {Tok: "pi"}, {Op: "unrouted", Tok: "ok"}, {Tok: "ok", Ext: "critical"}, {Op: "discover", Tok: "ok"}, {Op: "unknown", Tok: "ok"},
-	{Tok: "pS"}, {Tok: "pn"}, {Tok: "ok", Ext: "plain"}, {Tok: "y1,ok"}, {Tok: "y2,et"}, {Tok: "pk"}, {Tok: "pK"}, {Tok: "pm"},
+	{Tok: "pS"}, {Tok: "pn"}, {Tok: "ok", Ext: "plain"}, {Tok: "y1,ok"}, {Tok: "y2,et"}, {Tok: "pk"}, {Tok: "pK"}, {Tok: "pm"}, {Tok: "nn"}, {Tok: "y1,nn"},
 }
 
 func genReqSc(g *simrt.Tape, maxItems int) ReqSc {
@@ -55,6 +55,9 @@ func genReqSc(g *simrt.Tape, maxItems int) ReqSc {
 	rs.Option = g.Draw(4)
 	rs.Hdr = genHdr(g)
 	rs.IDs = genIDs(g)
+	if g.Draw(8) == 0 {
+		rs.MaxResp = []int{1, 8, 100, 200, 300, 500}[g.Draw(6)]
+	}
 	if rs.Option == 3 && g.Draw(2) == 0 {
 		rs.Option = g.Draw(3)
 	}
@@ -206,6 +209,15 @@ func checkBatch(x *X, prop string, rs *ReqSc, prefix string, supported []kmip.Pr
 				wantStarted = append(wantStarted, fmt.Sprintf("%s.%d", prefix, i))
 			}
 			ok := !itemFails(it)
+			if returnsNothing(it) && itemRunsHandler(it) {
+				// a handler that returns neither payload nor error: whether that item counts as failed is the
+				// library's call (the statement is silent); the rest of the batch is judged by what it said
+				ok = i < len(resp.BatchItem) && resp.BatchItem[i].ResultStatus == kmip.ResultStatusSuccess
+			}
+			if ok && rs.MaxResp > 0 && i < len(resp.BatchItem) && resp.BatchItem[i].ResultStatus != kmip.ResultStatusSuccess && resp.BatchItem[i].ResultReason == kmip.ResultReasonResponseTooLarge {
+				// the request asked for a small response and the item's result did not fit: a failed item
+				ok = false
+			}
 			wantOK = append(wantOK, ok)
 			if !ok && mode == 2 {
 				stopped = true
@@ -236,7 +248,9 @@ func checkBatch(x *X, prop string, rs *ReqSc, prefix string, supported []kmip.Pr
 				}
 			} else if gotOK {
 				p, _ := ri.ResponsePayload.(*payloads.ActivateResponsePayload)
-				if p == nil || tokenID(p.UniqueIdentifier) != fmt.Sprintf("%s.%d", prefix, i) {
+				if returnsNothing(rs.Items[i]) && p == nil {
+					// nothing returned, nothing carried
+				} else if p == nil || tokenID(p.UniqueIdentifier) != fmt.Sprintf("%s.%d", prefix, i) {
 					mismatch = fmt.Sprintf("item %d carries the payload of another item (%v)", i, ri.ResponsePayload)
 				}
 			}
@@ -248,6 +262,16 @@ func checkBatch(x *X, prop string, rs *ReqSc, prefix string, supported []kmip.Pr
 	}
 	sig := []string{"unset", "continue", "stop"}[rs.Option]
 	x.Reportf(prop+".batch-semantics", sig, "%s: %s; response %s", desc, strings.Join(why, "; "), respDesc(resp))
+}
+
+// returnsNothing: the scripted handler of this item ends with "return nil, nil".
+func returnsNothing(it ItemSc) bool {
+	for _, a := range strings.Split(it.Tok, ",") {
+		if a == "nn" {
+			return !itemFails(it)
+		}
+	}
+	return false
 }
 
 func itemsDesc(rs *ReqSc) string {
@@ -469,6 +493,10 @@ func init() {
 			{Name: "supported-set-spellings", Count: func(string) int { return 3 * 4 * 9 }, Scenario: func(_ string, i int) any {
 				return &C09Sc{Supported: []int{5, 20, 31}[i%3], SupportedSpelling: (i / 3) % 4,
 					Reqs: []ReqSc{{Version: i / 12, Option: 1, Items: []ItemSc{{Tok: "ok"}, {Tok: "ok"}}}}}
+			}},
+			{Name: "small-maximum-response-size", Count: func(string) int { return 6 * 4 * 3 }, Scenario: func(_ string, i int) any {
+				toks := [][]ItemSc{{{Tok: "ok"}, {Tok: "ok"}, {Tok: "ok"}}, {{Tok: "ok"}, {Tok: "et"}, {Tok: "ok"}, {Tok: "ok"}}, {{Tok: "ok"}, {Tok: "ok", NoID: true}, {Tok: "pe"}, {Tok: "ok"}, {Tok: "ok"}}}
+				return &C09Sc{EndToEnd: i%2 == 1, Reqs: []ReqSc{{Version: 2 + i%3, Option: (i / 6) % 4, MaxResp: []int{1, 8, 100, 200, 300, 500}[i%6], Items: toks[i/24]}}}
 			}},
 			{Name: "reconfigured-in-service", Count: func(string) int { return 5 * 5 * 4 }, Scenario: func(_ string, i int) any {
 				// initial set (default or restricted), new set, version of the requests before and after
